@@ -106,6 +106,11 @@ type env struct {
 	// propOverride: attribute every violation to this property (families whose
 	// property subsumes the others', e.g. C11 "... the installed entries are exactly those acknowledged").
 	propOverride string
+	// snapCache: the implementation snapshot taken once per quiescent-point batch
+	snapCache   Snapshot
+	snapCacheOK bool
+	// failStates: the model states one response passes through (see processResults)
+	failStates []*Model
 }
 
 func (e *env) probe(name string) { e.sim.Probe(name) }
@@ -290,9 +295,26 @@ func (e *env) processResults(s *session, rs []*spb.ModifyResponse) {
 			}
 			continue
 		}
+		// The server lists a response's successes before its failures, whatever order
+		// they happened in (a held operation may have failed on retry before a later one
+		// was installed): a FAILED verdict is judged against every model state the
+		// response passes through, the others strictly in order.
+		e.failStates = []*Model{e.model.Clone()}
+		var fails []*spb.AFTResult
 		for _, res := range r.GetResult() {
+			if res.GetStatus() == spb.AFTResult_FAILED {
+				fails = append(fails, res)
+				continue
+			}
+			e.oneResult(s, res)
+			if res.GetStatus() == spb.AFTResult_RIB_PROGRAMMED {
+				e.failStates = append(e.failStates, e.model.Clone())
+			}
+		}
+		for _, res := range fails {
 			e.oneResult(s, res)
 		}
+		e.failStates = nil
 	}
 }
 
@@ -385,6 +407,12 @@ func (e *env) applyVerdict(rec *opRec, res *spb.AFTResult, foreign bool) {
 			e.report("C06", "conflicting-results", "FAILED after RIB_PROGRAMMED", describeOp(op), false)
 		}
 		v, _, why := e.model.Expect(op)
+		for _, st := range e.failStates {
+			if v2, _, why2 := st.Expect(op); v2 == VFail || v2 == VEither {
+				v, why = v2, why2
+				break
+			}
+		}
 		switch v {
 		case VFail, VEither:
 			if rec.state == opHeld {
@@ -486,8 +514,11 @@ func (e *env) afterQuiescenceChecks(s *session) {
 		}
 		e.report("C02", "held-set-mismatch", sig, fmt.Sprintf("implementation holds %v, model holds %v", implHeld, modelHeld), true)
 	}
+	e.snapCache = e.implSnapshot()
+	e.snapCacheOK = e.snapCache != nil
 	e.compareState("rib-contents")
 	e.checkRefCounts("C03")
+	e.snapCacheOK = false
 	if !e.perNIFlush {
 		if d := e.model.Dangling(); len(d) > 0 {
 			e.report("C02", "dangling-reference", "installed entry references a missing entry", fmt.Sprint(d), false)
@@ -804,6 +835,9 @@ func (e *env) checkHooks() {
 		}
 	}
 	for _, d := range diffSnap(modelSnapshot(e.model, "", -1), fold) {
+		if en := e.model.Tab[d.Key]; d.What == "payload" && en != nil && en.Loose {
+			continue
+		}
 		late := ""
 		if d.Key.NI != e.sc.Cfg.Default {
 			late = " in a network instance created after hook registration"
